@@ -1211,3 +1211,123 @@ func init() {
 		}
 	})
 }
+
+// ---------------------------------------------------------------- the document root is never released (C12)
+
+// rootNeverReleased: a stream reader keeps three node references: the document root (set by the constructor and kept
+// for the reader's life time), the cursor and the stream candidate. The candidate has its own release paths (delivery,
+// rejection, the caller's Release, the "just in case" release at the next Read) and can be the root itself (target
+// xpath "."), so a further release through the root field cannot be shown to be the only one: a node released twice is
+// handed out twice by the pool (seed C12-8 released the root at EOF). The root field is recognised by role: a *Node
+// field of a stream reader (struct with >= 2 *Node fields, methods Read and Release) that no method assigns.
+func rootNeverReleased(c *core.Ctx, rule string) {
+	c.SSA()
+	idr := c.Pkg("idr")
+	if idr == nil {
+		c.Unresolved(rule, "package idr", "not loaded")
+		return
+	}
+	nodeObj, _ := idr.Types.Scope().Lookup("Node").(*types.TypeName)
+	if nodeObj == nil {
+		c.Unresolved(rule, "idr.Node", "type not found")
+		return
+	}
+	isNodePtr := func(t types.Type) bool {
+		p, ok := t.(*types.Pointer)
+		return ok && types.Identical(p.Elem(), nodeObj.Type())
+	}
+	removeFn := c.Func("idr", "RemoveAndReleaseTree")
+	nReaders := 0
+	for _, name := range idr.Types.Scope().Names() {
+		tn, ok := idr.Types.Scope().Lookup(name).(*types.TypeName)
+		if !ok {
+			continue
+		}
+		st, ok := tn.Type().Underlying().(*types.Struct)
+		if !ok {
+			continue
+		}
+		var nodeFields []*types.Var
+		var collect func(s *types.Struct, d int)
+		collect = func(s *types.Struct, d int) {
+			for i := 0; i < s.NumFields(); i++ {
+				ft := s.Field(i).Type()
+				if isNodePtr(ft) {
+					nodeFields = append(nodeFields, s.Field(i))
+					continue
+				}
+				// reader state grouped into a sub-struct of the package (by value or by pointer)
+				if n := core.NamedOf(ft); n != nil && n.Obj().Pkg() == idr.Types && n.Obj() != nodeObj && d < 2 {
+					if inner, ok := n.Underlying().(*types.Struct); ok {
+						collect(inner, d+1)
+					}
+				}
+			}
+		}
+		collect(st, 0)
+		if len(nodeFields) < 2 || c.MethodOfPkg(idr.Types, name, "Read") == nil || c.MethodOfPkg(idr.Types, name, "Release") == nil {
+			continue
+		}
+		nReaders++
+		// fields assigned by methods of the type
+		assigned := map[*types.Var]bool{}
+		var methods []*ssa.Function
+		for _, f := range c.RepoFunctions() {
+			if core.FuncPkg(f) != idr.Types {
+				continue
+			}
+			root := f
+			for root.Parent() != nil {
+				root = root.Parent()
+			}
+			if recv := root.Signature.Recv(); recv == nil || core.NamedOf(recv.Type()) == nil || core.NamedOf(recv.Type()).Obj() != tn {
+				continue
+			}
+			methods = append(methods, f)
+			for _, w := range core.Writes(f) {
+				if w.Kind == "field" && w.Field != nil {
+					assigned[w.Field] = true
+				}
+			}
+		}
+		var roots []*types.Var
+		for _, nf := range nodeFields {
+			if !assigned[nf] {
+				roots = append(roots, nf)
+			}
+		}
+		if len(roots) != 1 {
+			c.Unresolved(rule, "document root field of "+name, fmt.Sprintf("expected exactly one *Node field that no method assigns, found %d: the root reference is no longer fixed for the reader's life time", len(roots)))
+			continue
+		}
+		rootF := roots[0]
+		n := 0
+		for _, f := range methods {
+			for _, ci := range core.Calls(f) {
+				cf := ci.Common().StaticCallee()
+				isRelease := cf != nil && (cf == removeFn || (cf.Name() == "Release" && cf.Signature.Recv() != nil))
+				if !isRelease {
+					continue
+				}
+				for _, a := range ci.Common().Args {
+					if fp, ok := core.LoadedField(a); ok && len(fp.Path) > 0 && fp.Path[len(fp.Path)-1] == rootF {
+						n++
+						c.Unknown(rule, core.FuncKey(f)+" releases the document root", core.InstrPos(ci), "the document root is released through its own field; the stream candidate, which has separate release paths (delivery, rejection, Release, the release at the next Read), can be that very node (target xpath \".\"), so this cannot be shown to be the node's only release: a node released twice is handed out twice by the pool")
+					}
+				}
+			}
+		}
+		c.OK(rule, name+" never releases its document root", rootF.Pos(), fmt.Sprintf("root field resolved by role; %d release(s) through it", n))
+	}
+	if nReaders < 2 {
+		c.Unresolved(rule, "stream readers", fmt.Sprintf("expected the XML and JSON stream readers, found %d", nReaders))
+	}
+}
+
+func init() {
+	wrapRun("C12", func(c *core.Ctx) {
+		if c.CountRule("R12i") == 0 {
+			rootNeverReleased(c, "R12i")
+		}
+	})
+}
